@@ -1,2 +1,4 @@
 import Sonic.Go.Prelude
 import Sonic.Props.C10
+import Sonic.Props.C08
+import Sonic.Props.C15
